@@ -443,3 +443,75 @@ fn entry_insert_kernel(dead: bool)
     kani::cover!(true, "end of harness reached");
     std::mem::forget(captured); std::mem::forget(world);
 }
+
+/// C15 / C07: the registration that `once()` queues is REF-COUNTED (revokable mode): once it is applied, every trigger's
+/// table entry holds an auto-despawn handle of the wrapper's entity - which is what lets a one-off reactor that never runs
+/// (revoked before firing, empty bundle, trigger entity gone) vanish - and the reactor is not released while they exist.
+#[kani::proof]
+#[kani::stub(core::any::TypeId::of, crate::vh::stub_typeid_of)]
+#[kani::stub(<core::any::TypeId as crate::vh::PEq>::eq, crate::vh::stub_typeid_eq)]
+#[kani::unwind(4)]
+fn once_registration_is_refcounted()
+{
+    let mut world = World::new();
+    world.m_apply_via_fn_pointer();
+    world.m_drop_table::<bevy::model::cell::LeakAll>();
+    world.insert_resource(ReactCache::default());
+    world.insert_resource(crate::ecs::auto_despawn::verif_h::mk_despawner());
+    world.insert_resource(OnceLog(0));
+    let wp = &mut world as *mut World;
+    let token =
+    {
+        let mut rc = ReactCommands{ commands: cmds(wp) };
+        rc.once(broadcast::<Ea>(), |mut log: bevy::ecs::system::ResMut<OnceLog>| { log.0 += 1; })
+    };
+    let reactor = token.id;
+    world.flush();      // registration and storage insert are applied
+    assert!(world.m_alive(*reactor), "the wrapper's entity exists");
+    let cache = world.resource::<ReactCache>();
+    assert!(crate::react::react_cache::verif_h::broadcast_entries::<Ea>(cache) == 1 && crate::react::react_cache::verif_h::broadcast_first::<Ea>(cache) == Some(reactor),
+        "C15/C01: the one-off reactor is registered for its trigger, once");
+    assert!(crate::react::react_cache::verif_h::broadcast_first_is_refcounted::<Ea>(cache), "C15/C07: with a ref-counted handle (a persistent one would let a never-run one-off reactor live forever)");
+    assert!(world.resource::<AutoDespawner>().try_recv().is_none(), "C07: not released while its trigger is registered");
+    assert!(world.resource::<OnceLog>().0 == 0, "C15: registering does not run it");
+    kani::cover!(true, "end of harness reached");
+    std::mem::forget(world); std::mem::forget(token);
+}
+
+/// recorder standing in for `register_reactors` (what it does with a mode is decided by register.* and mode.*)
+pub static mut REGISTERED_MODE: u8 = 0x5E;
+pub static mut REGISTERED_FOR: (u32, u32) = (0x5EED, 0);
+pub fn record_register<T: ReactionTriggerBundle>(In((_triggers, syscommand, mode)): In<(T, SystemCommand, ReactorMode)>, _commands: Commands, _despawner: Res<AutoDespawner>)
+{
+    unsafe
+    {
+        REGISTERED_MODE = match mode { ReactorMode::Persistent => 1, ReactorMode::Cleanup => 2, ReactorMode::Revokable => 3 };
+        REGISTERED_FOR = (syscommand.index(), syscommand.generation());
+    }
+}
+
+/// C15 / C07: `once()` registers its triggers in a REF-COUNTED mode for the wrapper's own entity (revokable), so that a
+/// one-off reactor that never gets to run - revoked before firing, empty bundle, trigger entity gone - is still collected.
+#[kani::proof]
+#[kani::stub(core::any::TypeId::of, crate::vh::stub_typeid_of)]
+#[kani::stub(<core::any::TypeId as crate::vh::PEq>::eq, crate::vh::stub_typeid_eq)]
+#[kani::stub(register_reactors, record_register)]
+#[kani::unwind(4)]
+fn once_registers_in_a_refcounted_mode()
+{
+    let mut world = World::new();
+    world.m_drop_table::<bevy::model::cell::LeakAll>();
+    world.insert_resource(ReactCache::default());
+    world.insert_resource(crate::ecs::auto_despawn::verif_h::mk_despawner());
+    world.m_set_cmd_mode(CmdMode::Immediate);      // the deferred registration closure is applied at once (its type cannot be named)
+    let wp = &mut world as *mut World;
+    let token =
+    {
+        let mut rc = ReactCommands{ commands: cmds(wp) };
+        rc.once(broadcast::<Ea>(), || {})
+    };
+    assert!(unsafe { REGISTERED_MODE } == 3 || unsafe { REGISTERED_MODE } == 2, "C15/C07: a one-off reactor is registered with a ref-counted handle (a persistent one would let a never-run reactor live forever)");
+    assert!(unsafe { REGISTERED_FOR } == (token.id.index(), token.id.generation()), "C15: for the wrapper's own entity");
+    kani::cover!(true, "end of harness reached");
+    std::mem::forget(world); std::mem::forget(token);
+}
